@@ -52,7 +52,7 @@ class Ctx:
     """one symbolic execution (one path)."""
     cur = None
 
-    def __init__(self, prefix=(), pending=None, nspare=24, branch_timeout_ms=3000, max_vars=40):
+    def __init__(self, prefix=(), pending=None, nspare=24, branch_timeout_ms=3000, max_vars=48):
         self.prefix = list(prefix)
         self.pending = pending if pending is not None else []
         self.trace = []
